@@ -67,10 +67,51 @@ def floatToRat (x : Float) : Rat :=
     if e ≥ 1075 then ((sign * mant * (2:Int)^(e - 1075) : Int) : Rat)
     else ((sign * mant : Int) : Rat) / ((2:Rat)^(1075 - e))
 
-/-- `float(q)`, approximately (not correctly rounded for huge operands; float
-    results are compared with a tolerance). -/
+/-- Correctly rounded (half-to-even) conversion of the positive rational `n/d` to an IEEE
+    double, returned as its bit pattern without sign; `none` on overflow.  This is what
+    CPython's `int.__truediv__`/`float(int)`/`Fraction.__float__` compute. -/
+def posRatToBits (n d : Nat) : Option Nat :=
+  if n = 0 then some 0 else
+  -- e = floor(log2(n/d)) up to one: compare bit lengths, then normalise
+  let e0 : Int := (n.log2 : Int) - (d.log2 : Int)
+  -- scaled so that quotient has at least 54 significant bits
+  let shift : Int := 54 - e0
+  let (num, den) := if shift ≥ 0 then (n * 2 ^ shift.toNat, d) else (n, d * 2 ^ (-shift).toNat)
+  let q := num / den
+  let r := num % den
+  -- q has 54 or 55 bits; value = (q + r/den) * 2^(-shift)
+  let bits := q.log2 + 1
+  -- target: 53-bit mantissa m, value = m * 2^(ex)
+  let drop := bits - 53
+  let ex : Int := (drop : Int) - shift
+  -- subnormal handling: minimum exponent of the unit in the last place is -1074
+  let (drop, ex) := if ex < -1074 then (drop + (-1074 - ex).toNat, (-1074 : Int)) else (drop, ex)
+  let m0 := q / 2 ^ drop
+  let rem := q % 2 ^ drop
+  let half := 2 ^ (drop - 1)
+  let sticky := r != 0
+  let up := if drop = 0 then false
+            else if rem > half then true
+            else if rem < half then false
+            else if sticky then true
+            else m0 % 2 = 1
+  let m := if up then m0 + 1 else m0
+  -- renormalise if the mantissa overflowed to 2^53
+  let (m, ex) := if m = 2 ^ 53 then (2 ^ 52, ex + 1) else (m, ex)
+  if m < 2 ^ 52 then
+    -- subnormal (ex = -1074) or zero
+    some m
+  else
+    let biased : Int := ex + 1075
+    if biased ≥ 2047 then none else some (biased.toNat * 2 ^ 52 + (m - 2 ^ 52))
+
+/-- `float(q)` for a rational, correctly rounded; a non-finite result signals overflow. -/
 def ratToFloat (q : Rat) : Float :=
-  Float.ofInt q.num / Float.ofNat q.den
+  match posRatToBits q.num.natAbs q.den with
+  | some b => Float.ofBits (UInt64.ofNat (if q.num < 0 then b + 2 ^ 63 else b))
+  | none => if q.num < 0 then -(1.0 / 0.0) else (1.0 / 0.0)
+
+def intToFloat (n : Int) : Float := ratToFloat (n : Rat)
 
 /-- Exact value of an exact kind; floats through their bit pattern. -/
 def toRat : Num → Rat
@@ -80,7 +121,7 @@ def toRat : Num → Rat
 
 /-- Python's `float(x)`; `OverflowError` when the int / Fraction is too large. -/
 def toFloat : Num → Except Err Float
-  | int n => let f := Float.ofInt n; if f.isFinite then .ok f else .error .overflow
+  | int n => let f := intToFloat n; if f.isFinite then .ok f else .error .overflow
   | frac q => let f := ratToFloat q; if f.isFinite then .ok f else .error .overflow
   | flt x => .ok x
 
@@ -105,11 +146,13 @@ def isExact : Num → Bool
 /-- Floored modulo on rationals: `a - b * floor(a / b)` (Fraction.__mod__). -/
 def fmodRat (a b : Rat) : Rat := a - b * ((a / b).floor : Rat)
 
-/-- Python float `%` (floored), on finite doubles. -/
+/-- Python float `%`: C `fmod` (exact, sign of the dividend), then `+ y` when the signs differ. -/
 def fmodFloat (x y : Float) : Float :=
-  let q := (x / y).floor
-  let r := x - q * y
-  r
+  let xr := floatToRat x; let yr := floatToRat y
+  let t : Int := let q := xr / yr; if q < 0 then q.ceil else q.floor
+  let m := ratToFloat (xr - yr * (t : Rat))
+  if m == 0 then (if y < 0 then -0.0 else 0.0)
+  else if (y < 0) != (m < 0) then m + y else m
 
 def ratPowNat (q : Rat) (n : Nat) : Rat := q ^ n
 
@@ -149,7 +192,7 @@ def pyTrueDiv (a b : Num) : Except Err Num :=
     let x ← a.toFloat; let y ← b.toFloat
     if y == 0 then .error .divZero else fin (x / y)
   | int x, int y =>   -- only reached if the override were missing: Python's int/int is a float
-    if y = 0 then .error .divZero else fin (Float.ofInt x / Float.ofInt y)
+    if y = 0 then .error .divZero else fin (ratToFloat ((x : Rat) / (y : Rat)))
   | _, _ => if b.toRat = 0 then .error .divZero else .ok (frac (a.toRat / b.toRat))
 
 /-- `operator.mod`. -/
